@@ -440,6 +440,8 @@ class PVLParser(object):
 
         try:
             self.parse_around_equals(tokens)
+        except LexerError:
+            raise
         except ValueError:
             tokens.throw(
                 ValueError, f'Expecting an equals sign after "{begin}" '
@@ -490,6 +492,8 @@ class PVLParser(object):
 
         try:
             self.parse_around_equals(tokens)
+        except LexerError:
+            raise
         except (ParseError, ValueError):  # No equals statement, which is fine.
             self.parse_statement_delimiter(tokens)
             return None
